@@ -415,6 +415,30 @@ func runC10(r *Run) {
 		}
 	})
 
+	r.rule("R8", "the scheme of a connection that fiber terminates with TLS is https whoever the peer is: Scheme answers anything but the constant https only behind `IsTLS() == false` (E1)", func() {
+		f := r.Fn("", "(*DefaultCtx).Scheme")
+		cut := map[edge]bool{}
+		for _, c := range callsMatching(f, false, nameHasSuffix("fasthttp.RequestCtx).IsTLS")) {
+			for _, br := range ifsOnValue(f, c.Value()) {
+				if s, ok := br.truthSlot(false); ok {
+					cut[edge{br.If.Block(), s}] = true
+				}
+			}
+		}
+		r.need(len(cut) >= 1, "Scheme tests IsTLS()")
+		notHTTPS := func(in ssa.Instruction) bool {
+			ret, ok := in.(*ssa.Return)
+			if !ok || ret.Parent() != f || len(ret.Results) != 1 {
+				return false
+			}
+			s, isC := constString(asConst(stripValue(ret.Results[0])))
+			return !(isC && s == "https")
+		}
+		path, hit := reach(entryOf(f), notHTTPS, cut, nil)
+		r.check(hit == nil, "Scheme:tls-decides-first", r.fpos(f), "with the `IsTLS() == false` edges removed only `return \"https\"` is reachable",
+			"Scheme can answer without having looked at the connection: an untrusted peer on a TLS connection is reported as http (Secure() false, BaseURL http://…) — the scheme no longer comes from the connection: "+pathString(r.P, path))
+	})
+
 	r.rule("R5", "the trusted set is what the operator wrote: a range is parsed from the configured text itself, a single address is trusted by identity (E3)", func() {
 		f := r.Fn("", "(*App).handleTrustedProxy")
 		var cfgText *ssa.Parameter
